@@ -72,6 +72,9 @@ func runRT(run *harness.Run, scenario string, cases, perChild, parallel int) *rt
 			f, _ := os.Create(logf)
 			// generous watchdog; QUIT makes the Go runtime dump all goroutines into the log
 			secs := 120 + 40*(j.to-j.from)
+			if scenario == "syncstorm" {
+				secs = 240 + 150*(j.to-j.from) // tens of thousands of rounds per case, some children on a single processor
+			}
 			cmd := exec.Command("timeout", "-s", "QUIT", strconv.Itoa(secs), bin, "__rt", scenario, strconv.FormatInt(run.Seed, 10), strconv.Itoa(j.from), strconv.Itoa(j.to))
 			cmd.Stdout, cmd.Stderr = f, f
 			cmd.Env = append(os.Environ(), "GORACE=halt_on_error=0 log_path="+racef)
